@@ -76,7 +76,8 @@ def build(shape, assign):
     for (path, attr), value in assign.items():
         if value is None:
             continue
-        setattr(nodes[path], attr, copy.deepcopy(value))
+        from mc.observe import fresh
+        setattr(nodes[path], attr, fresh(copy.deepcopy(value)))
     return d
 
 
